@@ -5,6 +5,7 @@ import (
 
 	"github.com/ozontech/file.d/logger"
 	"github.com/ozontech/file.d/pipeline/doif"
+	"github.com/ozontech/file.d/verifhook"
 	insaneJSON "github.com/ozontech/insane-json"
 	"go.uber.org/atomic"
 	"go.uber.org/zap"
@@ -154,6 +155,7 @@ func (p *processor) processSequence(event *Event) bool {
 		}
 
 		event.stage = eventStageOutput
+		verifhook.Point("router.beforeOut")
 		p.router.Out(event)
 	}
 
